@@ -309,6 +309,7 @@ class Scenario(object):
                          for e in p.history],
                 'pnl': (p.total_pnl, p.total_realised_pnl, p.total_unrealised_pnl),
                 'clock': p.current_dt,
+                'marks': {a: (str(pos.current_dt), pos.current_price) for a, pos in p.pos_handler.positions.items()},
             }
         return s
 
@@ -329,6 +330,8 @@ class Scenario(object):
                 'mv': h(p['mv']), 'eq': h(p['eq']),
                 'pend': list(p['pend']),
                 'hist': [tuple(h(x) for x in e) for e in p['hist']],
+                # each holding's own mark (price and the time it carries): part of the holding, a refused request leaves it
+                'marks': {a: (m_[0], h(m_[1])) for a, m_ in p.get('marks', {}).items()},
             }
         return out
 
@@ -1365,6 +1368,10 @@ def diff_snap(a, b):
             out.append('pending-orders: %s %s -> %s' % (pid, pa['pend'], pb['pend']))
         if pa['hist'] != pb['hist']:
             out.append('history: %s %d -> %d events' % (pid, len(pa['hist']), len(pb['hist'])))
+        if pa.get('marks') != pb.get('marks'):
+            for asset in sorted(set(pa.get('marks', {})) | set(pb.get('marks', {}))):
+                if pa.get('marks', {}).get(asset) != pb.get('marks', {}).get(asset):
+                    out.append('holding-mark: %s %s %s -> %s' % (pid, asset, pa.get('marks', {}).get(asset), pb.get('marks', {}).get(asset)))
     return out
 
 
@@ -1416,6 +1423,7 @@ class PortfolioScenario(Scenario):
             'hist': [(str(e.dt), e.type, e.description, e.debit, e.credit, e.balance) for e in p.history],
             'pnl': (p.total_pnl, p.total_realised_pnl, p.total_unrealised_pnl),
             'clock': p.current_dt,
+            'marks': {a: (str(pos.current_dt), pos.current_price) for a, pos in p.pos_handler.positions.items()},
         }}}
 
     def classify(self, op):
